@@ -167,3 +167,60 @@ property_info("C19", level="other",
                           "objects' DefaultValue/Min/Max/AllowableRange by the C07 contract of ReadParameter (proved "
                           "read-set). The generator is not proved for arbitrary parameter maps.",
               not_decided=["generate_json_schema over arbitrary (symbolic) parameter maps - only the real catalogue is decided"])
+
+
+# ---------------------------------------------------------------------------------------------------------------------
+# frame: the declaration the schema is generated from is the one ReadParameter enforces only if nothing re-assigns
+# a parameter's bounds / default / type-defining fields after construction
+DECLARATION_FIELDS = ("Min", "Max", "AllowableRange", "DefaultValue", "Required", "json_parameter_type")
+DECLARATION_WRITES_ALLOWED = set()      # (file, scope, target text): none on the pinned tree
+
+
+@ground_check("C19", "declared-bounds-are-not-reassigned-after-construction")
+def declaration_frame():
+    import ast
+    repo_src = os.path.join(os.environ.get("VERIF_REPO", "/repo"), "src")
+    found = []
+    n_files = 0
+    for pkg in ("geophires_x", "hip_ra_x"):
+        for dp, dn, fn in os.walk(os.path.join(repo_src, pkg)):
+            for f in sorted(fn):
+                if not f.endswith(".py"):
+                    continue
+                path = os.path.join(dp, f)
+                rel = os.path.relpath(path, repo_src)
+                try:
+                    tree = ast.parse(open(path, encoding="utf-8").read())
+                except SyntaxError:
+                    continue
+                n_files += 1
+
+                def visit(node, scope):
+                    for child in ast.iter_child_nodes(node):
+                        sc = scope
+                        if isinstance(child, (ast.FunctionDef, ast.ClassDef)):
+                            sc = child.name if scope == "<module>" else f"{scope}.{child.name}"
+                        targets = []
+                        if isinstance(child, ast.Assign):
+                            targets = child.targets
+                        elif isinstance(child, (ast.AugAssign, ast.AnnAssign)):
+                            targets = [child.target]
+                        for t in targets:
+                            for tt in (t.elts if isinstance(t, (ast.Tuple, ast.List)) else [t]):
+                                if isinstance(tt, ast.Attribute) and tt.attr in DECLARATION_FIELDS:
+                                    # `self.Min = ...` inside the Parameter dataclasses themselves is construction
+                                    if rel.endswith("Parameter.py") and isinstance(tt.value, ast.Name) and tt.value.id == "self":
+                                        continue
+                                    found.append((rel, scope, ast.unparse(tt)))
+                        if isinstance(child, ast.Call) and ast.unparse(child.func) == "setattr" and len(child.args) >= 2 \
+                                and isinstance(child.args[1], ast.Constant) and child.args[1].value in DECLARATION_FIELDS:
+                            found.append((rel, scope, ast.unparse(child)))
+                        visit(child, sc)
+                visit(tree, "<module>")
+    items = [{"name": f"declaration write {it} is in the committed allow-list", "ok": it in DECLARATION_WRITES_ALLOWED,
+              "detail": "" if it in DECLARATION_WRITES_ALLOWED else "a parameter's declared bound/default is re-assigned "
+              "after construction: the schema (generated from fresh objects) no longer states what the reader enforces"}
+             for it in sorted(set(found))]
+    items.append({"name": f"declaration-frame audit covered the module sources", "ok": n_files > 40,
+                  "detail": f"{n_files} files"})
+    return items
